@@ -312,3 +312,80 @@ Proof.
     replace (S (S (S (length ps + 1))) - 1)%nat with (S (S (S (length ps)))) by lia.
     cbn [repeat app]. reflexivity.
 Qed.
+
+(* ---------- the statements of part c03_as ---------- *)
+
+Definition non_header (b : Z) : Prop := is_header b = false.
+
+Theorem resync_nonheader_10 f bs : freach f -> Forall non_header bs -> (10 <= length bs)%nat ->
+  fidle (fst (frun f bs)).
+Proof.
+  intros Hr Hn Hl. apply freach_fwf in Hr. apply resync_nonheader; [exact Hr|exact Hn|].
+  pose proof (togo_bound f Hr). lia.
+Qed.
+
+Theorem resync_any_10 f bs : freach f -> (10 <= length bs)%nat ->
+  exists k, (k <= 10)%nat /\ fidle (fst (frun f (firstn k bs))).
+Proof.
+  intros Hr Hl. apply freach_fwf in Hr. pose proof (togo_bound f Hr) as Hb.
+  destruct (resync_any bs f Hr) as (k & Hk & Hi); [lia|]. exists k. split; [lia|exact Hi].
+Qed.
+
+Theorem expected_bounded f : freach f -> 0 <= f_exp f <= 7.
+Proof. intros Hr. apply expected_le_7, freach_fwf, Hr. Qed.
+
+Theorem buffer_bounded f : freach f -> (length (f_msg f) <= 10)%nat.
+Proof.
+  intros Hr. apply freach_fwf in Hr. fcases f; unfold fwf in Hr; cbn [f_msg f_all f_exp length] in *; try lia.
+Qed.
+
+(* from the third byte on, expected_bytes decreases by one per byte until the frame is handed
+   to _parse and the parser is idle *)
+Theorem expected_decreases f b : freach f -> (3 <= length (f_msg f))%nat ->
+  (f_exp f = 0 /\ fstep f b = (finit, FFrame (f_msg f ++ [b]))) \/
+  (0 < f_exp f /\ snd (fstep f b) = FTrue /\ f_exp (fst (fstep f b)) = f_exp f - 1 /\
+   f_msg (fst (fstep f b)) = f_msg f ++ [b]).
+Proof.
+  intros Hr Hl. apply freach_fwf in Hr.
+  fcases f; cbn [f_msg length] in Hl; try lia.
+  unfold fwf in Hr. cbn [f_msg f_all f_exp length] in Hr. destruct Hr as (_ & He & _).
+  unfold fstep. cbn [f_msg f_all f_exp length].
+  destruct (Z.eqb_spec e 0) as [->|Hz]; [left; split; reflexivity|right].
+  cbn [fst snd f_msg f_exp]. repeat split; lia.
+Qed.
+
+Theorem measure_decreases f b : freach f -> ~ fidle f ->
+  fidle (fst (fstep f b)) \/ togo (fst (fstep f b)) < togo f.
+Proof. intros Hr Hn. apply togo_step; [apply freach_fwf, Hr|exact Hn]. Qed.
+
+Theorem measure_bounded f : freach f -> 0 <= togo f <= 10.
+Proof. intros Hr. apply togo_bound, freach_fwf, Hr. Qed.
+
+Theorem idle_discards_reach f b : freach f -> fidle f -> non_header b -> fstep f b = (f, FFalse).
+Proof. intros Hr. apply idle_discards, freach_fwf, Hr. Qed.
+
+Theorem fresh_after_idle f : freach f -> fidle f -> f = finit.
+Proof. intros Hr. apply fwf_idle_init, freach_fwf, Hr. Qed.
+
+Theorem freach_step f b : freach f -> freach (fst (fstep f b)).
+Proof.
+  intros [bs ->]. exists (bs ++ [b]). rewrite frun_app.
+  destruct (frun finit bs) as [f1 e1]. cbn [frun fst]. destruct (fstep f1 b). reflexivity.
+Qed.
+
+Theorem freach_run f bs : freach f -> freach (fst (frun f bs)).
+Proof.
+  intros [bs0 ->]. exists (bs0 ++ bs). rewrite frun_app.
+  destruct (frun finit bs0) as [f1 e1]. cbn [fst]. destruct (frun f1 bs). reflexivity.
+Qed.
+
+(* non-vacuity: reachable non-idle states *)
+Example freach_ex1 : freach (mkF [252; 0; 7; 48; 1] true 5).
+Proof. exists [252; 0; 7; 48; 1]. reflexivity. Qed.
+Example freach_ex2 : freach (mkF [250; 225] false 7).
+Proof. exists [250; 225]. reflexivity. Qed.
+
+Theorem frame_shape_reach f b f' m : freach f -> fstep f b = (f', FFrame m) ->
+  f' = finit /\ m = f_msg f ++ [b] /\ (4 <= length m <= 11)%nat /\
+  exists h t, m = h :: t /\ is_header h = true.
+Proof. intros H. apply frame_shape, freach_fwf, H. Qed.
